@@ -88,7 +88,7 @@ def env_join(a, b):
     for k in set(a) | set(b):
         if k in (PC, LT):
             out[k] = bool(a.get(k)) or bool(b.get(k))
-        elif k in ("$keys", "$mem"):
+        elif k in ("$keys", "$mem", "$attrfacts", "$cobound"):
             out[k] = (a.get(k) or frozenset()) & (b.get(k) or frozenset())
         elif k == "$guards":
             ga, gb = a.get(k) or {}, b.get(k) or {}
@@ -542,6 +542,8 @@ class InterpBase:
             env = dict(env)
             env[target.id] = clip(v)
             nm = target.id
+            if env.get("$attrfacts"):
+                env["$attrfacts"] = frozenset(f for f in env["$attrfacts"] if f[0] != nm)
             if env.get("$keys"):
                 env["$keys"] = frozenset(f for f in env["$keys"] if f[0] != nm)
             if env.get("$mem"):
@@ -553,7 +555,27 @@ class InterpBase:
                 env["$mem"] = kept
             guards = env.get("$guards")
             if guards and target.id in {n for g in guards.values() for n in g[1]}:
-                env["$guards"] = {k: g for k, g in guards.items() if target.id not in g[1]}
+                wrap = (value_node is not None and not aug and isinstance(value_node, ast.List) and len(value_node.elts) == 1
+                        and isinstance(value_node.elts[0], ast.Name) and value_node.elts[0].id == target.id)
+                if wrap:
+                    # `x = [x]`: a remembered test about x now speaks about the only element, x[0]
+                    import copy as _copy
+
+                    class _W(ast.NodeTransformer):
+                        def visit_Name(self, n):
+                            if n.id == nm and isinstance(n.ctx, ast.Load):
+                                return ast.Subscript(value=ast.Name(id=nm, ctx=ast.Load()), slice=ast.Constant(value=0), ctx=ast.Load())
+                            return n
+                    ng = {}
+                    for k, g in guards.items():
+                        if nm in g[1]:
+                            t2 = ast.fix_missing_locations(_W().visit(_copy.deepcopy(g[0])))
+                            ng[k] = (t2, g[1])
+                        else:
+                            ng[k] = g
+                    env["$guards"] = ng
+                else:
+                    env["$guards"] = {k: g for k, g in guards.items() if target.id not in g[1]}
             if value_node is not None and isinstance(value_node, (ast.Compare, ast.BoolOp, ast.UnaryOp, ast.Call)) and v.only("bool"):
                 names = _names_in(value_node)
                 g = dict(env.get("$guards") or {})
@@ -566,6 +588,11 @@ class InterpBase:
             n = len(target.elts)
             starred = [i for i, e in enumerate(target.elts) if isinstance(e, ast.Starred)]
             self.unpack_ops(v, n, target, env, frame)
+            if value_node is not None and isinstance(value_node, ast.Call) and all(isinstance(e, ast.Name) for e in target.elts):
+                # names bound together from one call result may be correlated (value, found-flag)
+                env = dict(env)
+                grp = frozenset(e.id for e in target.elts)
+                env["$cobound"] = frozenset(g for g in (env.get("$cobound") or frozenset()) if not (g & grp)) | {grp}
             if v.tup is not None and len(v.tup) == n and not starred:
                 parts = list(v.tup)
                 rest = (v.types - {"tuple"}) if "tuple" in v.types else frozenset()
@@ -584,6 +611,9 @@ class InterpBase:
             return env
         if isinstance(target, ast.Attribute):
             base = self.ev(target.value, env, frame)
+            if env.get("$attrfacts"):
+                env = dict(env)
+                env["$attrfacts"] = frozenset(f for f in env["$attrfacts"] if f[1] != target.attr and f[1].lstrip("_") != target.attr.lstrip("_"))
             return self.store_attr(target, base, v, env, frame, st, aug)
         if isinstance(target, ast.Subscript):
             base = self.ev(target.value, env, frame)
